@@ -415,6 +415,7 @@ CONTRACTS["ufo2ft.outlineCompiler:OutlineTTFCompiler.compileGlyphs#guard"].runti
 _T6 = ("xx", "xy", "yx", "yy", "dx", "dy")
 cls("Transform", fields={k: REAL for k in _T6},
     derived={"canon": lambda ex, st, self: Val(Ref("Transform"), _TFM(*[z3.Select(ex.field_array(st, "Transform", k), lift(self)) for k in _T6]))},
+    views={"canon": lambda o: o},  # natively every Transform is a value
     notes="fontTools Transform: immutable value object; `t.canon` = THE value with t's six numbers (`t.canon == t` says t is such a value, "
           "so that `==` on it is the NamedTuple's value equality — see mk_transform)")
 
@@ -452,6 +453,8 @@ def mk_transform(ex, st, six):
     for k, t in zip(_T6, terms):
         st.assume(z3.Select(ex.field_array(st, "Transform", k), r) == t)
         known[k] = Val(REAL, t)
+    # (a consequence of the six equations by congruence, spelled out: r is THE value with its own six numbers — `r.canon == r`)
+    st.assume(_TFM(*[z3.Select(ex.field_array(st, "Transform", k), r) for k in _T6]) == r)
     _VALUE_OBJECTS[r.get_id()] = (r, "Transform", known)
     return Val(Ref("Transform"), r)
 
@@ -573,13 +576,36 @@ _l.module = __name__
 # ---- flattenComponents._flattenComponent ----------------------------------------------------------------------------------
 
 
+_FGC_KEY = "ufo2ft.filters.flattenComponents:_flattenGlyphComponents"
+
+
+def _comp_fn(name, sort):
+    return z3.Function("c02_component_" + name, T.RefSort, sort)
+
+
+def _comp_field(name, ty):
+    return lambda ex, st, self: Val(ty, _comp_fn(name, ty.sort())(lift(self)))
+
+
+def _comp_six(v):
+    return tuple(Val(REAL, _comp_fn("t_" + k, z3.RealSort())(lift(v))) for k in _T6)
+
+
 def _comp_transformation(ex, st, self):
-    return Val(PYOBJ, None, tuple(ex.read_field(st, self, "t_" + k) for k in _T6), True)
+    six = _comp_six(self)
+    if getattr(getattr(ex, "c", None), "key", None) == _FGC_KEY:
+        # in _flattenGlyphComponents the attribute is only COMPARED (`!= (comp.baseGlyph, comp.transformation)`) with a (name, Transform) pair:
+        # the transform VALUE with these six numbers (for values `==` is the NamedTuple / tuple equality, see mk_transform)
+        return mk_transform(ex, st, six)
+    return Val(PYOBJ, None, six, True)
 
 
-cls("C02_Component", fields={"baseGlyph": STR, **{"t_" + k: REAL for k in _T6}}, derived={"transformation": _comp_transformation},
+# A component's base glyph and transformation are modelled as FUNCTIONS of the component object (immutable): the code under contract never
+# assigns them (hook obligation C02.frame.component-attributes); a new component gets them when the pen's addComponent creates it.
+cls("C02_Component", fields={},
+    derived={"baseGlyph": _comp_field("baseGlyph", STR), **{"t_" + k: _comp_field("t_" + k, REAL) for k in _T6}, "transformation": _comp_transformation},
     views={**{"t_" + k: (lambda i: (lambda o: o.transformation[i]))(i) for i, k in enumerate(_T6)}},
-    notes="component: baseGlyph and its 6 transformation numbers (`transformation` is the 6-tuple of them)")
+    notes="component: baseGlyph and its 6 transformation numbers (`transformation` is the 6-tuple of them); immutable")
 cls("C02_FGlyph", fields={"name": STR, "components": List(Ref("C02_Component")), "ncontours": INT},
     length=lambda ex, st, v: ex.read_field(st, v, "ncontours"), views={"ncontours": lambda o: len(o), "components": lambda o: list(o.components)},
     notes="glyph: name, components, len(glyph) = number of contours")
@@ -646,6 +672,7 @@ contract(
     ensures={
         # every returned transform is a Transform VALUE (so that callers may compare it with `==`)
         "transform-values": "all(r[1].canon == r[1] for r in result)",
+        "non-empty": "len(result) >= 1",
         # a simple or mixed base is kept as it is, with exactly the component's six numbers
         "leaf": "implies(" + _SOM.format(g="glyphSet.glyphs[component.baseGlyph]") + ", len(result) == 1 and result[0][0] == component.baseGlyph and "
         + _eq6("result[0][1]", _CT) + ")",
@@ -668,21 +695,22 @@ contract(
     ], "flattened_components[i] = (name, flat_tr)": [
         "len(flattened_components) == len(prev) and flattened_components[i] == (name, flat_tr)",
         "all(flattened_components[k] == prev[k] for k in range(i))",
-        "all(flattened_components[k] == prev[k] for k in range(i + 1, len(prev)))",
         "flat_tr.canon == flat_tr",
     ]},
     alias_ok=("flattened_components", "raw", "prev"),  # `raw` / `prev` are ghost SNAPSHOTS (values) of the list, not second holders of it
+    extract_free=True, seq_bridge=True,  # the list update `xs[i] = v` comes with position-wise facts instead of extract/concat terms
     loops={
         "for nested in glyph.components": Loop(
             index="j",
             invariants={"only-leaves": "all(r[0] in glyphSet.glyphs and " + _SOM.format(g="glyphSet.glyphs[r[0]]") + " for r in all_flattened_components)",
-                        "transform-values": "all(r[1].canon == r[1] for r in all_flattened_components)"},
+                        "transform-values": "all(r[1].canon == r[1] for r in all_flattened_components)",
+                        "non-empty": "implies(j > 0, len(all_flattened_components) >= 1)"},
         ),
         "for (i, (name, tr)) in enumerate(flattened_components)": Loop(
             index="k0",
             invariants={
                 "len": "len(flattened_components) == len(raw)",
-                "transform-values": "all(flattened_components[k][1].canon == flattened_components[k][1] for k in range(len(flattened_components)))",
+                "transform-values": "all(flattened_components[k][1].canon == flattened_components[k][1] for k in range(k0))",
                 # THE composition: entry k becomes (same name, component.T ∘ nested.T) with the exact six terms
                 "composed-name": "all(flattened_components[k][0] == raw[k][0] for k in range(k0))",
                 **{"composed-" + _k: "all(flattened_components[k][1]." + _k + " == " + _e + " for k in range(k0))"
@@ -1254,6 +1282,7 @@ contract(
     canaries={"recompiles": "old(self._compiledGlyphs) is not None and result != old(self._compiledGlyphs)"},
     seq_positions=True,
     merge_branches=False,  # "cache filled" / "compiled now" stay separate paths
+    canon_binders=True,  # the cubic-guard condition is evaluated twice (callee's raises clause, this contract's): identical terms
 )
 
 # the cached path of the same method, as setupTable_glyf meets it (light call-site contract, proved from the same body): the glyph
@@ -1524,9 +1553,9 @@ def _fpen_addComponent(ex, st, self, args, kwargs, node):
     base, tr = args
     g = ex.read_field(st, self, "glyph")
     nc = ex.new_object(st, "C02_Component")
-    ex.write_field(st, nc, "baseGlyph", base, node)
+    st.assume(_comp_fn("baseGlyph", z3.StringSort())(lift(nc)) == lift(base, STR))  # the new component's (immutable) attributes
     for k, v in zip(_T6, _six(ex, st, tr, node)):
-        ex.write_field(st, nc, "t_" + k, v, node)
+        st.assume(_comp_fn("t_" + k, z3.RealSort())(lift(nc)) == lift(v, REAL))
     c = ex.read_field(st, g, "components")
     t = lift(c)
     new = z3.Concat(t, z3.Unit(lift(nc)))
@@ -1536,6 +1565,139 @@ def _fpen_addComponent(ex, st, self, args, kwargs, node):
     return Val.const(None)
 
 
-_fpen_addComponent.modifies = ["C02_FGlyph.components", "C02_Component.baseGlyph"] + ["C02_Component.t_" + k for k in _T6]
+_fpen_addComponent.modifies = ["C02_FGlyph.components"]
 cls("C02_FPen", fields={"glyph": Ref("C02_FGlyph")}, methods={"addComponent": _fpen_addComponent}, notes="glyph.getPointPen() of a component-only rebuild: addComponent appends a new component")
 CLASSES["C02_FGlyph"].methods.update({"clearComponents": _fg_clear, "getPointPen": _fg_pen})
+
+CLASSES["C02_FGlyphSet"].derived["som_names"] = lambda ex, st, self: Val(Set(STR), _som_names_term(ex, st, self))
+CLASSES["C02_FGlyphSet"].views["som_names"] = lambda o: {n for n, g in o.items() if not g.components or len(g) > 0}
+
+
+def _som_names_term(ex, st, self):
+    """the names of the glyph set whose glyph is simple or mixed (no components, or some contours) — in the CURRENT heap"""
+    d = ex.read_field(st, self, "glyphs")
+    s = d.ty.sort()
+    n = z3.Const(fresh_name("somn"), z3.StringSort())
+    g = z3.Select(s.map(d.term), n)
+    comps = z3.Select(ex.field_array(st, "C02_FGlyph", "components"), g)
+    ncont = z3.Select(ex.field_array(st, "C02_FGlyph", "ncontours"), g)
+    return z3.Lambda([n], z3.And(z3.Select(s.dom(d.term), n), z3.Or(z3.Length(comps) == 0, ncont > 0)))
+
+
+_OCS = "old(glyph.components)"
+_OTHERS_KEPT = "all(implies(glyphSet.glyphs[n] != glyph, glyphSet.glyphs[n].components == old(glyphSet.glyphs[n].components)) for n in glyphSet.names)"
+_SAME6 = " and ".join(f"glyph.components[k].t_{x} == {_OCS}[k].t_{x}" for x in _T6)
+_NESTED = f"any({_OCS}[a].baseGlyph not in old(glyphSet.som_names) for a in range(len({_OCS})))"
+contract(
+    _FGC_KEY,
+    props=["C02", "C15"],
+    params={"glyph": Ref("C02_FGlyph"), "glyphSet": Ref("C02_FGlyphSet")},
+    returns=BOOL,
+    modifies=["C02_FGlyph.components"],
+    requires=[
+        _CLOSED,  # no dangling component reference anywhere (otherwise _flattenComponent raises ValueError), contour counts are counts
+        "all(glyphSet.glyphs[n].name == n for n in glyphSet.names)",  # the glyph set maps every name to the glyph of that name
+        "all(c.baseGlyph in glyphSet.glyphs for c in glyph.components)",
+        "all(c.baseGlyph != glyph.name for c in glyph.components)",  # the glyph is not a component of itself
+        "glyph.name in glyphSet.glyphs and glyphSet.glyphs[glyph.name] == glyph",
+    ],
+    ensures={
+        "no-components-untouched": f"implies(len({_OCS}) == 0, not result and glyph.components == {_OCS})",
+        # DEPTH <= 1: afterwards every component points at a glyph of the glyph set that was (and, being another glyph, still is) simple
+        # or mixed — or at this very glyph, which happens exactly on a CYCLIC reference (the recursion then meets the glyph with its
+        # component list already cleared and takes it for a leaf)
+        "depth-at-most-one": "all(c.baseGlyph in old(glyphSet.som_names) or c.baseGlyph == glyph.name for c in glyph.components)",
+        "other-glyphs-untouched": _OTHERS_KEPT,
+        # reports a change iff some component's base was a nested composite ...
+        "reports-nesting": f"result == ({_NESTED})",
+        # ... and otherwise re-emits the components unchanged: same bases, same six numbers, same order
+        "already-flat-unchanged": f"implies(not ({_NESTED}), len(glyph.components) == len({_OCS}) and all(glyph.components[k].baseGlyph == {_OCS}[k].baseGlyph and {_SAME6} for k in range(len({_OCS}))))",
+    },
+    canaries={"always-flattens": "result"},
+    locals={"components": List(Ref("C02_Component")), "flattened_tuples": List(_PAIR)},
+    ghost_vars={"SOM0": (Set(STR), "glyphSet.som_names"), "C1": (List(Ref("C02_Component")), "[]"), "wn": (INT, "-1")},
+    ghost={"flattened_tuples = _flattenComponent(glyphSet, comp, found_in=glyph)": ["C1 = glyph.components"], "flattened = True": ["wn = i"]},
+    hints={"flattened_tuples = _flattenComponent(glyphSet, comp, found_in=glyph)": [
+        # the base is another glyph, so it is simple-or-mixed NOW iff it was at entry
+        "comp == components[i] and (comp.baseGlyph in SOM0) == (len(glyphSet.glyphs[comp.baseGlyph].components) == 0 or glyphSet.glyphs[comp.baseGlyph].ncontours > 0)",
+        # the test of the code: the first flattened reference differs from the component itself exactly when the base was a nested composite
+        "(flattened_tuples[0] != (comp.baseGlyph, comp.transformation)) == (comp.baseGlyph not in SOM0)",
+    ]},
+    alias_ok=("C1",),
+    loops={
+        "for comp in components": Loop(
+            index="i",
+            invariants={
+                "pen": "pen.glyph == glyph",
+                "others": _OTHERS_KEPT,
+                "closed": "all(c.baseGlyph in glyphSet.glyphs for c in glyph.components)",
+                "depth": "all(c.baseGlyph in SOM0 or c.baseGlyph == glyph.name for c in glyph.components)",
+                # wn: position of a component whose base was a nested composite (ghost witness), -1 while none was met
+                "flag-witness": "flattened == (wn >= 0)",
+                "witness": "implies(wn >= 0, wn < i and components[wn].baseGlyph not in SOM0)",
+                "none-nested-so-far": "implies(not flattened, all(components[a].baseGlyph in SOM0 for a in range(i)))",
+                "flat-len": "implies(not flattened, len(glyph.components) == i)",
+                "flat-same": "implies(not flattened, all(glyph.components[k].baseGlyph == components[k].baseGlyph and "
+                             + " and ".join(f"glyph.components[k].t_{x} == components[k].t_{x}" for x in _T6) + " for k in range(i)))",
+            },
+        ),
+        "for flattened_tuple in flattened_tuples": Loop(
+            index="j",
+            invariants={
+                "pen": "pen.glyph == glyph",
+                "others": _OTHERS_KEPT,
+                "appended": "len(glyph.components) == len(C1) + j",
+                "kept": "all(glyph.components[k] == C1[k] for k in range(len(C1)))",
+                "new-base": "all(glyph.components[k].baseGlyph == flattened_tuples[k - len(C1)][0] for k in range(len(C1), len(C1) + j))",
+                **{f"new-{x}": f"all(glyph.components[k].t_{x} == flattened_tuples[k - len(C1)][1].{x} for k in range(len(C1), len(C1) + j))" for x in _T6},
+            },
+        ),
+    },
+)
+
+
+def _views_components(o):
+    from pyvc.rt import Proxy
+
+    return [Proxy(c, CLASSES["C02_Component"]) for c in o.components]  # proxies: `==` is object identity, also against old() snapshots
+
+
+CLASSES["C02_FGlyph"].views["components"] = _views_components
+
+
+def _fgc_cases(rng, n):
+    from vcheck.hooks import c15_render as R
+
+    out = []
+    for k in range(n):
+        desc = R.rand_graph(rng, n_base=2, n_comp=rng.randint(1, 5), depth=4, curves=None, mixed=True)
+        out.append({"glyphs": desc, "glyph": rng.choice(sorted(desc)), "ufolib": ["ufoLib2", "defcon"][k % 2]})
+    return out
+
+
+def _fgc_build(d):
+    f = rtlib.build_ufo({"glyphs": d["glyphs"]}, d["ufolib"])
+    gs = {g.name: g for g in f}
+    return {"glyph": gs[d["glyph"]], "glyphSet": gs}
+
+
+CONTRACTS[_FGC_KEY].runtime = Runtime(_fgc_cases, _fgc_build)
+
+# FlattenComponentsFilter.filter: the per-glyph entry point of the filter is exactly _flattenGlyphComponents on the context's glyph set
+cls("C02_FCtx", fields={"glyphSet": Ref("C02_FGlyphSet")}, notes="filter context (glyphSet)")
+cls("C02_FFilter", fields={"context": Ref("C02_FCtx")}, notes="FlattenComponentsFilter instance")
+_FS = "self.context.glyphSet"
+contract(
+    "ufo2ft.filters.flattenComponents:FlattenComponentsFilter.filter",
+    props=["C02", "C15"],
+    params={"self": Ref("C02_FFilter"), "glyph": Ref("C02_FGlyph")},
+    returns=BOOL,
+    modifies=["C02_FGlyph.components"],
+    requires=[r.replace("glyphSet", _FS) for r in CONTRACTS[_FGC_KEY].requires],
+    ensures={
+        "depth-at-most-one": f"all(c.baseGlyph in old({_FS}.som_names) or c.baseGlyph == glyph.name for c in glyph.components)",
+        "reports-nesting": "result == (" + _NESTED.replace("glyphSet", _FS) + ")",
+        "other-glyphs-untouched": _OTHERS_KEPT.replace("glyphSet", _FS),
+    },
+    canaries={"always-flattens": "result"},
+)
